@@ -33,9 +33,9 @@ type wstr struct {
 }
 
 type demonCfg struct {
-	Sleeping, Jitter                                       uint32
-	Alloc, Execute                                         int32
-	Spawn64, Spawn86                                       wstr
+	Sleeping, Jitter                                          uint32
+	Alloc, Execute                                            int32
+	Spawn64, Spawn86                                          wstr
 	Technique, JmpBypass, StackSpoof, ProxyLoad, SysInd, Amsi int32
 	// TRANSPORT_HTTP
 	KillDate     int64
@@ -151,10 +151,10 @@ func unpackWH(v uint32) (enabled bool, sh, sm, eh, em int, stray uint32) {
 // Option codes (Demon headers) for the strings the client offers
 
 var (
-	codeAlloc     = map[string]int32{"Win32": 1, "Native/Syscall": 2}                             // DX_MEM_WIN32, DX_MEM_SYSCALL
-	codeExecute   = map[string]int32{"Win32": 1, "Native/Syscall": 2}                             // DX_THREAD_WIN32, DX_THREAD_SYSCALL
+	codeAlloc     = map[string]int32{"Win32": 1, "Native/Syscall": 2}                                  // DX_MEM_WIN32, DX_MEM_SYSCALL
+	codeExecute   = map[string]int32{"Win32": 1, "Native/Syscall": 2}                                  // DX_THREAD_WIN32, DX_THREAD_SYSCALL
 	codeTechnique = map[string]int32{"WaitForSingleObjectEx": 0, "Ekko": 1, "Zilean": 2, "Foliage": 3} // SLEEPOBF_*
-	codeGadget    = map[string]int32{"None": 0, "jmp rax": 1, "jmp rbx": 2}                        // SLEEPOBF_BYPASS_*
+	codeGadget    = map[string]int32{"None": 0, "jmp rax": 1, "jmp rbx": 2}                            // SLEEPOBF_BYPASS_*
 	codeProxyLoad = map[string]int32{"None (LdrLoadDll)": 0, "RtlRegisterWait": 1, "RtlCreateTimer": 2, "RtlQueueWorkItem": 3}
 	codeAmsi      = map[string]int32{"None": 0, "Hardware breakpoints": 1}
 )
